@@ -494,6 +494,7 @@ class Raises:
                 oc = "as-model" if (g is not None and lc.same(g[0], pred[0]) and lc.same(g[1], pred[1])) else ("exception" if isinstance(o_, str) else "wrong-value")
                 rep.disagree(desc, oc, detail)
 
+    phases["objects"] = round(time.time() - t0, 1)
     # ---- binding demonstration: corrupted expectations must be rejected
     if first_ok is None:
         core.die("no agreeing finite mul cell for the binding self-test")
@@ -541,6 +542,7 @@ class Raises:
                 e[1].append(detail)
         with open(os.environ["VERIF_C08_DUMP"], "w") as f:
             json.dump(summ, f, indent=1, default=str)
+    phases["evidence"] = round(time.time() - t0, 1)
     rc = rep.finish()
     cov["known_findings"] = rep.kf_summary()
     core.write_evidence(PROP, tier, seed, "model_checking", cov, time.time() - t0,
